@@ -188,7 +188,7 @@ package vaa
 // ---------------------------------------------------------------- helpers that only format (no-panic only)
 
 //@ func (c ChainID) String() (s string)
-//@   props C13
+//@   props C13 C17
 //@   nopanic
 
 // the message id names the stream and the sequence, one decimal / hex segment each
